@@ -152,6 +152,12 @@ def spaces(tier, variant, seed):
             for idx in bit_indices(a, alloc):
                 for op in ("setbit", "clrbit", "combit", "tstbit", "scan0", "scan1"):
                     yield (op, a, alloc, idx)
+        # indices far beyond any operand, up to the largest bit index the type holds: only the functions that do not allocate.
+        # 64*2^32 + k wraps a 32-bit limb index back into the operand; 2^38 and above is "bit 0 of limb 2^32"
+        for idx in (1 << 20, (1 << 32) - 1, 1 << 32, (1 << 32) + 1, (1 << 38) - 1, 1 << 38, (1 << 38) + 1, (1 << 38) + 64, (1 << 38) + 64 * n + 3, (1 << 39) + 65, (1 << 44) + 129,
+                    (1 << 63) - 1, 1 << 63, (1 << 63) + 64, UMAX - 64, UMAX - 1):
+            for op in ("tstbit", "scan0", "scan1"):
+                yield (op, a, max(n, 1), idx)
         for op in ("com", "com_ip", "popcount"):
             yield (op, a, max(n, 1), 0)
 
